@@ -83,4 +83,21 @@ theorem flaky_iff (attempts : List Res) (last : Res) (h : attempts.getLast? = so
 theorem signal_names_are_the_signals :
     (∀ p ∈ Gen.signalNames, portableSignalName p.1 = some p.2) ∧ (Gen.signalNames.map (·.1)).Nodup := by decide
 
+/-- **each kind of result is reported under its own word** (displayer `status_str`, as read on this run): every result has exactly
+    the word the property names for it — pass, leak, failure (with a leak, or with the signal), execution failure, timeout — and
+    no two arms share a word, so a status line tells the outcomes apart -/
+theorem every_result_has_its_own_word :
+    (∀ r : Res, (statusKey r, statusWord r) ∈ Gen.statusWords) ∧
+    (Gen.statusWords.map (·.1)).Nodup ∧ (Gen.statusWords.map (·.2)).Nodup := by
+  refine ⟨?_, by decide, by decide⟩
+  intro r
+  cases r with
+  | fail sg lk =>
+    cases sg with
+    | none => cases lk <;> decide
+    | some n =>
+      have h : (statusKey (.fail (some n) lk), statusWord (.fail (some n) lk)) = ("Fail/signal", "SIG|ABORT SIG") := rfl
+      rw [h]; decide
+  | _ => decide
+
 end NextestModel.C03
